@@ -1791,3 +1791,7 @@ impl fmt::Display for JsErasedNativeErrorKind {
         .fmt(f)
     }
 }
+
+#[cfg(kani)]
+#[path = "/verif/kani/engine/error.rs"]
+mod verif_kani;
